@@ -98,9 +98,9 @@ M("C07", "pump-drops-chunk", "breaking",
     "                if decrypted and self.inner_protocol:\n                    self.inner_protocol.data_received(decrypted)\n",
     "                if decrypted and self.inner_protocol and len(decrypted) < 8192:\n                    self.inner_protocol.data_received(decrypted)\n")],
   "S4:server.tls_protocol:TLSServerProtocol._process_application_data:recv-dropped")
-M("C07", "client-chunk-dependent", "breaking",
+M("C13", "client-chunk-dependent", "breaking",
   [("client/protocol.py", "GeminiClientProtocol.data_received", "        if not self.header_received and CRLF in self.buffer:", "        if not self.header_received and CRLF in data:")],
-  "S3:client.protocol:GeminiClientProtocol.data_received:chunk-use")
+  "E6:client.protocol:GeminiClientProtocol.data_received:chunk-use")
 M("C07", "benign-buffer-concat-form", "benign",
   [(P, DR, "        self.buffer += data\n", "        self.buffer = self.buffer + data\n")])
 M("C07", "benign-latch-before-slice", "benign",
@@ -294,6 +294,11 @@ M("C15", "revert-fix-handshake-deadline", "breaking",
   [("server/tls_protocol.py", "TLSServerProtocol.connection_made",
     "            self._handshake_timer = loop.call_later(\n                HANDSHAKE_TIMEOUT, self._handle_handshake_timeout\n            )\n", "            self._handshake_timer = None\n")],
   "X1:server.tls_protocol:TLSServerProtocol.connection_made:no-deadline")
+M("C15", "timeout-parses-buffer-before-close", "breaking",
+  [(P, "GeminiServerProtocol._handle_timeout", "            response = \"40 Request timeout\\r\\n\"\n", "            seen = int(self.buffer[:3] or b\"0\")\n            response = \"40 Request timeout\\r\\n\"\n")],
+  "X3:server.protocol:GeminiServerProtocol._handle_timeout:raise-before-close")
+M("C15", "timeout-parses-buffer-after-close", "benign",
+  [(P, "GeminiServerProtocol._handle_timeout", "            self.transport.close()\n", "            self.transport.close()\n            logger.debug(\"timeout_partial\", partial=self.buffer[:80].decode(\"utf-8\", \"replace\"))\n")])
 M("C15", "handshake-deadline-only-logs", "breaking",
   [("server/tls_protocol.py", "TLSServerProtocol._handle_handshake_timeout", "            self._close_with_error(\"TLS handshake timeout\")\n", "            logger.warning(\"tls_handshake_slow\")\n")],
   "X1:server.tls_protocol:TLSServerProtocol._handle_handshake_timeout:deadline-does-not-close")
@@ -697,6 +702,14 @@ M("C13", "revert-fix-lookup-error", "breaking",
 M("C13", "done-test-removed-and-early-return", "breaking",
   [(CP, CL, "        if not self.header_received:\n            self.response_future.set_exception(\n                ConnectionError(\"Connection closed before receiving response\")\n            )\n            return\n", "        if not self.header_received:\n            return\n")],
   "E1:client.protocol:GeminiClientProtocol.connection_lost:unresolved-exit")
+M("C13", "error-exit-only-without-header", "breaking",
+  [(CP, CL, "        if exc:\n", "        if exc and not self.header_received:\n")],
+  "E1b:client.protocol:GeminiClientProtocol.connection_lost:error-yields-response")
+M("C13", "titan-error-exit-dropped", "breaking",
+  [(CP, "TitanClientProtocol.connection_lost", "        if exc:\n            self.response_future.set_exception(exc)\n            return\n", "")],
+  "E1b:client.protocol:TitanClientProtocol.connection_lost:error-yields-response")
+M("C13", "error-exit-explicit-none-test", "benign",
+  [(CP, CL, "        if exc:\n", "        if exc is not None:\n")])
 M("C13", "status-range-widened", "breaking",
   [(CP, "GeminiClientProtocol._parse_header", "if not (10 <= self.status < 70):", "if not (10 <= self.status < 100):")],
   "E2:client.protocol:GeminiClientProtocol._parse_header:status-range")
@@ -800,6 +813,12 @@ M("C17", "benign-removeprefix-style", "benign",
   [(PX, HA, "upstream_url = f\"{self.upstream}{path}\"", "base = self.upstream\n        upstream_url = f\"{base}{path}\"")])
 
 # ---------------------------------------------------------------- C18
+M("C18", "upstream-reset-after-header-is-success", "breaking",
+  [(CP, "GeminiClientProtocol.connection_lost", "        if exc:\n", "        if exc and not self.header_received:\n")],
+  "Z6:client.protocol:GeminiClientProtocol.connection_lost:error-yields-response")
+M("C18", "early-close-yields-empty-success", "breaking",
+  [(CP, "GeminiClientProtocol.connection_lost", "        if not self.header_received:\n            self.response_future.set_exception(\n                ConnectionError(\"Connection closed before receiving response\")\n            )\n            return\n", "        if not self.header_received:\n            self.status, self.meta = 20, \"text/gemini\"\n")],
+  "Z6:client.protocol:GeminiClientProtocol.connection_lost:error-yields-response")
 M("C18", "revert-fix-charset-relay", "breaking",
   [(PX, HA, "            if isinstance(response.body, str) and charset.lower() not in (\n                \"utf-8\",\n                \"utf8\",\n            ):", "            if False:")],
   "Z3:server.proxy:ProxyHandler._handle_async:relay:text, charset iso-8859-1")
